@@ -588,7 +588,7 @@ func genApCases(c *Ctx) []json.RawMessage {
 }
 
 func checkC19(c *Ctx) {
-	c.rule = "MC: all operation sequences <= 5 over both handles keep FIFO order and Remaining = unread length in the single-buffer model. TRACE: every sequence of <= 3 (thorough 4) operations from {Write 0/1/2 bytes, Read 0/1/2, Reset on either handle, Close, RemainingBytes} over empty and pre-filled buffers, through NewBufferTransport and NewDefaultTransport(*bytes.Buffer), plus random longer sequences; after every step both handles (buffer Len/Bytes, transport RemainingBytes) must show the model state; generic transport over objects with/without ReadableLen (every boundary of int: negative values incl. -2, MinInt32, MinInt64; 0; positives up to MaxInt64); registered / unregistered read, write and check callbacks (argument identity, result pass-through, specific error). Registry under concurrent registration: 3000 rounds of three goroutines registering the three hooks at the same instant; afterwards all three dispatchers reach their callbacks. Re-entrant callbacks (lazy installation of the struct checker, validation through CheckTStruct, self re-registration) while another goroutine keeps registering: every dispatch returns the callback result within 5 s."
+	c.rule = "MC: all operation sequences <= 5 over both handles keep FIFO order and Remaining = unread length in the single-buffer model. TRACE: every sequence of <= 3 (thorough 4) operations from {Write 0/1/2 bytes, Read 0/1/2, Reset on either handle, Close, RemainingBytes} over empty and pre-filled buffers, through NewBufferTransport and NewDefaultTransport(*bytes.Buffer), plus random longer sequences; after every step both handles (buffer Len/Bytes, transport RemainingBytes) must show the model state; generic transport over objects with/without ReadableLen (every boundary of int: negative values incl. -2, MinInt32, MinInt64; 0; positives up to MaxInt64); registered / unregistered read, write and check callbacks (argument identity, result pass-through, specific error). Registry under concurrent registration: 3000 rounds of three goroutines registering the three hooks at the same instant; afterwards all three dispatchers reach their callbacks. Re-entrant callbacks (lazy installation of the struct checker, validation through CheckTStruct, self re-registration) while another goroutine keeps registering: every dispatch returns the callback result within 5 s. One registration, many calls: values of the same and of different dynamic types, value-dependent verdicts, call counts and argument identity."
 	c.MC("MC_ApacheBridge.tla", "MC_ApacheBridge.cfg", 4)
 	c.TraceCheck(famAp, genApCases(c))
 	c.Assume("registry globals are saved/restored by the driver; cases run sequentially")
